@@ -49,6 +49,14 @@ def run(ctx):
         for s in scripts:
             for k in (0, 1, 2, 3):
                 cases.append(('C16', [k], s, [('parse', {}, s), ('parse', dict(expansionlimit=k), s)]))
+        # the limit under the other options: unsupported constructs (arithmetic, coproc, select, time) in words and substitutions with proceedonerror
+        extra = ['$((1))', 'a $((1 + $(b)))', 'a $(( $(d $(e)) + 1 )) $(f)', 'a $(b)\nc $(( $(d $(e)) + 1 ))', 'a $[1+2] $(b $(c))', 'a $(b $((1)))', 'coproc a $(b $(c))', 'time a $(b `c`)',
+                 'select x in $(a $(b)); do c; done', 'a $(coproc b $(c))', 'a <(time b $(c))', 'a "$(( $(b) ))" `c $(d)`'] + \
+                common.random_scripts(seed + 1, 150 if quick else 2500, maxdepth=3, heredocs=False, unsupported=0.25)
+        for s in common.dedup(extra):
+            for o in (dict(proceedonerror=True), dict(proceedonerror=True, strictmode=False)):
+                for k in (0, 1, 2):
+                    cases.append(('C16', [k], s, [('parse', o, s), ('parse', dict(o, expansionlimit=k), s)]))
     elif prop == 'C17':
         scripts = common.dedup(common.finding_witnesses(findings) + common.corpus_inputs() + list(gen.exhaustive(2 if quick else 3)) +
                                common.random_scripts(seed, 500 if quick else 8000, mutate=1, unsupported=0.08))
